@@ -225,18 +225,21 @@ fn run_script(sc: &Script, ctx: &mut Ctx) -> Result<(), Fail> {
             labels.push(Label::new("pad", "x".repeat(16 * 1024)));
         }
         let key = Key::from_parts("m", labels);
+        // values cycle through zero, small and large ones for every operation kind
+        let small = [0u64, 0, 1, 7, u64::MAX][(g / 6 % 5) as usize];
         let (op, bits) = match g % 6 {
             0 => {
-                rec.register_counter(&key, &META).increment(g);
-                (4, g)
+                rec.register_counter(&key, &META).increment(small);
+                (4, small)
             }
             1 => {
-                rec.register_counter(&key, &META).absolute(g + 7);
-                (5, g + 7)
+                rec.register_counter(&key, &META).absolute(small);
+                (5, small)
             }
             2 => {
-                rec.register_gauge(&key, &META).increment(g as f64 + 0.5);
-                (6, (g as f64 + 0.5).to_bits())
+                let v = if g / 6 % 2 == 0 { 0.0 } else { g as f64 + 0.5 };
+                rec.register_gauge(&key, &META).increment(v);
+                (6, v.to_bits())
             }
             3 => {
                 rec.register_gauge(&key, &META).decrement(-0.0);
